@@ -10,13 +10,14 @@ open Acv.Pipe Acv.Gen
 
 def entries : List Nat := [0, 1, 2, 3, 4, 5, 6, 7, 8]
 
-/-- steps executed under the recover guard of `GenerateRego` (the profile parser and the generator,
-which signal malformed profiles by panicking) -/
-def guardedSteps : List Nat := [0, 1]
+/-- steps executed under a recover guard: the profile parser and the generator (guard of `GenerateRego`; they signal
+malformed profiles by panicking) and the JSON-LD processor (guard of `NormalizeOrError`; json-gold panics on IRI
+references it cannot parse when it resolves them against a base) -/
+def guardedSteps : List Nat := [0, 1, 4]
 
-/-- Whatever the profile parser and the Rego generator do — succeed, return an error or panic — every
-entry point returns a report or an error, provided the remaining steps (OPA, encoding/json, json-gold,
-the indexer and the report builder) do not panic. -/
+/-- Whatever the profile parser, the Rego generator and the JSON-LD processor do — succeed, return an error or panic —
+every entry point returns a report or an error, provided the remaining steps (OPA, encoding/json, the indexer and the
+report builder) do not panic. -/
 theorem total_under_guard :
     entries.all (fun entry => (oracles extCanErr).all (fun o =>
       (List.range 8).any (fun x => !guardedSteps.contains x && o.getD x .ok == .panic) ||
@@ -24,7 +25,9 @@ theorem total_under_guard :
 
 /-- … and the guard is what does it: a panic in the parser or the generator becomes an error -/
 theorem guard_converts_panics :
-    (run pipeline (asOracle [.panic]) 0).2 = .err ∧ (run pipeline (asOracle [.ok, .panic]) 0).2 = .err := by
+    (run pipeline (asOracle [.panic]) 0).2 = .err ∧ (run pipeline (asOracle [.ok, .panic]) 0).2 = .err ∧
+    (run pipeline (asOracle [.ok, .ok, .ok, .ok, .panic]) 0).2 = .err ∧
+    (run pipeline (asOracle [.ok, .ok, .ok, .ok, .panic]) 1).2 = .err := by
   decide +kernel
 
 /-- the remaining exposure, stated exactly: the entry point panics iff a step outside the guard panics
